@@ -11,10 +11,16 @@ pid, n = sys.argv[1], sys.argv[2]
 checks = pid
 if "--checks" in sys.argv:
     checks = sys.argv[sys.argv.index("--checks") + 1]
-src = "/tmp/seed/%s/out" % pid
-diff, demo, txt = "%s/change%s.diff" % (src, n), "%s/demo%s.py" % (src, n), "%s/change%s.txt" % (src, n)
+kept = "/verif/seeded/%s-%s" % (pid, n)
+if os.path.exists(kept + "/patch.diff"):          # already kept: re-evaluate from /verif/seeded
+    diff, demo, txt = kept + "/patch.diff", kept + "/demo.py", None
+    _m = json.load(open(kept + "/meta.json")) if os.path.exists(kept + "/meta.json") else {}
+    meta = {"property": pid, "change": int(n), "description": _m.get("description", "")}
+else:                                             # fresh from a sub-agent's scratch worktree
+    src = "/tmp/seed/%s/out" % pid
+    diff, demo, txt = "%s/change%s.diff" % (src, n), "%s/demo%s.py" % (src, n), "%s/change%s.txt" % (src, n)
+    meta = {"property": pid, "change": int(n), "description": open(txt).read().strip() if os.path.exists(txt) else ""}
 assert os.path.exists(diff) and os.path.exists(demo), (diff, demo)
-meta = {"property": pid, "change": int(n), "description": open(txt).read().strip() if os.path.exists(txt) else ""}
 run = lambda cmd, **kw: subprocess.run(cmd, capture_output=True, text=True, **kw)
 wt = tempfile.mkdtemp(prefix="vt_seedeval_")
 os.rmdir(wt)
@@ -65,8 +71,9 @@ if confirmed:
         shutil.rmtree("/verif/replays/%s" % pid, ignore_errors=True)
     out = "/verif/seeded/%s-%s" % (pid, n)
     os.makedirs(out, exist_ok=True)
-    shutil.copy(diff, out + "/patch.diff")
-    shutil.copy(demo, out + "/demo.py")
+    if os.path.abspath(diff) != os.path.abspath(out + "/patch.diff"):
+        shutil.copy(diff, out + "/patch.diff")
+        shutil.copy(demo, out + "/demo.py")
     meta["what_i_ran"] = ["scratch worktree: git apply patch.diff; pytest tests; demo.py (fails); without patch demo.py passes",
                           "git -C /repo apply patch.diff; ./check <id> --tier quick; git -C /repo checkout -- ."]
     json.dump(meta, open(out + "/meta.json", "w"), indent=1)
